@@ -75,6 +75,17 @@ pub enum SendOp {
     SendCap { eos: bool },
 }
 
+/// one scripted call on the receive half (conformance replays)
+#[derive(Serialize, Deserialize, Clone, Debug, PartialEq)]
+#[serde(tag = "op", rename_all = "snake_case")]
+pub enum RecvOp {
+    /// poll_data once, log the result, go on
+    PollData,
+    Release { n: usize },
+    WaitQ { k: usize },
+    Drop,
+}
+
 #[derive(Serialize, Deserialize, Clone, Debug)]
 #[serde(default)]
 pub struct ReadPol {
@@ -96,11 +107,13 @@ pub struct ReadPol {
     pub start_q: Option<usize>,
     /// don't read at all, just hold the handle (until hold_q or the end of the run)
     pub idle: bool,
+    /// explicit script of calls (overrides the policy fields above)
+    pub script: Vec<RecvOp>,
 }
 
 impl Default for ReadPol {
     fn default() -> Self {
-        ReadPol { info: false, push: false, drop_head: false, release: "now".into(), max_chunks: None, trailers_first: false, hold_q: None, start_q: None, idle: false }
+        ReadPol { info: false, push: false, drop_head: false, release: "now".into(), max_chunks: None, trailers_first: false, hold_q: None, start_q: None, idle: false, script: vec![] }
     }
 }
 
